@@ -5,6 +5,7 @@
 -/
 import AgpTpf.Model.Remap
 import AgpTpf.Model.Fasta
+import AgpTpf.Gen.Cli
 namespace AgpTpf
 
 structure NamedAsm where
@@ -70,9 +71,13 @@ def splitWords : Str → List Str
       if h : rest.length < s.length then w :: splitWords rest else [w]
 termination_by s => s.length
 
-/-- one line of `load_index`: exactly five fields, the last four integers (`ValueError` otherwise) -/
+/-- `line.rstrip("\n").split("\t")` — how `load_index` breaks a `.fai` line into columns since fix f770cde
+    (`Gen.faiLineSplitExpr` is the expression in the source; `splitWords` above is what it was before) -/
+def splitFaiLine (line : Str) : List Str := splitOnChar '\t' (rstripBy (· == '\n') line)
+
+/-- one line of `load_index`: exactly five tab-separated fields, the last four integers (`ValueError` otherwise) -/
 def loadIndexLine (line : Str) : R (Str × FastaInfo) :=
-  match splitWords line with
+  match splitFaiLine line with
   | [n, a, b, c, d] => do
     let l ← pyInt a; let o ← pyInt b; let r ← pyInt c; let m ← pyInt d
     pure (n, { length := l, fileOffset := o, rpl := r, mll := m })
